@@ -295,6 +295,23 @@ where
                 let i = it.take().unwrap();
                 out.push(format!("{}", mm(|| i.count())));
             }
+            Cmd::Nth(k) => match mm(|| cur.nth(*k)) {
+                None => out.push("-".into()),
+                Some(x) => {
+                    let s = show(cx, x);
+                    out.push(format!("+{s}"));
+                }
+            },
+            Cmd::Last => {
+                let i = it.take().unwrap();
+                match mm(|| i.last()) {
+                    None => out.push("-".into()),
+                    Some(x) => {
+                        let s = show(cx, x);
+                        out.push(format!("+{s}"));
+                    }
+                }
+            }
         }
     }
     for f in forks {
@@ -842,6 +859,17 @@ fn run_script_set(cx: &mut Cx, it: micromap::SetIter<'_, Key>, script: &[Cmd]) -
                 let i = it.take().unwrap();
                 out.push(format!("{}", mm(|| i.count())));
             }
+            Cmd::Nth(n) => match mm(|| cur.nth(*n)) {
+                None => out.push("-".into()),
+                Some(k) => out.push(format!("+@{}={}", cx.slot(k as *const Key as usize), k.show())),
+            },
+            Cmd::Last => {
+                let i = it.take().unwrap();
+                match mm(|| i.last()) {
+                    None => out.push("-".into()),
+                    Some(k) => out.push(format!("+@{}={}", cx.slot(k as *const Key as usize), k.show())),
+                }
+            }
         }
     }
     for f in forks {
@@ -906,6 +934,23 @@ where
             Cmd::Count => {
                 let i = it.take().unwrap();
                 out.push(format!("{}", mm(|| i.count())));
+            }
+            Cmd::Nth(n) => match mm(|| cur.nth(*n)) {
+                None => out.push("-".into()),
+                Some(k) => {
+                    let s = show(cx, k);
+                    out.push(format!("+{s}"));
+                }
+            },
+            Cmd::Last => {
+                let i = it.take().unwrap();
+                match mm(|| i.last()) {
+                    None => out.push("-".into()),
+                    Some(k) => {
+                        let s = show(cx, k);
+                        out.push(format!("+{s}"));
+                    }
+                }
             }
             Cmd::Fold => {
                 let i = it.take().unwrap();
